@@ -212,19 +212,6 @@ theorem json_roundtrip_same_sql (E : TagCrypto) (q : Query String)
 
 /-! ### No JSON value at all denotes an empty `$or` (or an empty `$exist`) -/
 
-mutual
-/-- no `Or []` and no `Exist []` anywhere -/
-def noEmptyOrExist : Query String → Bool
-  | .and qs => noEmptyOrExistList qs
-  | .or qs => !qs.isEmpty && noEmptyOrExistList qs
-  | .not q => noEmptyOrExist q
-  | .exist ns => !ns.isEmpty
-  | _ => true
-def noEmptyOrExistList : List (Query String) → Bool
-  | [] => true
-  | q :: qs => noEmptyOrExist q && noEmptyOrExistList qs
-end
-
 theorem collapse_noEmpty (ops : List (Query String)) (h : noEmptyOrExistList ops = true) :
     noEmptyOrExist (collapse ops) = true := by
   unfold collapse
